@@ -19,6 +19,7 @@ from ..world_session import objs
 
 PROP = "c11"
 NEEDS_PARTNER = True
+GC_SEAM = True          # cyclic garbage collection only at the plan's "gc" operations
 TRANSPORTS = ["string", "file", "file", "obs_dump", "corr_dump", "dict", "csv", "sql", "pickle", "obs_pickle"]
 NAMES = ["a", "b", "run1", "data.json", "x.json.gz"]
 _SCHEMA = None
@@ -50,7 +51,16 @@ def gen_plan(rng, tier):
                 op["fault"] = {"frac": round(rng.random(), 4), "err": rng.choice(["ENOSPC", "EIO"])}
             elif rng.random() < 0.06 and tr in ("file", "obs_dump", "corr_dump", "dict"):
                 op["intr"] = round(rng.random(), 4)        # the export is interrupted (Ctrl-C) at a pyerrors line event
+                if rng.random() < 0.4:
+                    op["intr"] = rng.choice([0.9999, 0.995, 0.99, 0.98, 0.97])      # late: data handed to the file object, file object not closed yet
             ops.append(op)
+            if "intr" in op and rng.random() < 0.6:
+                # the user runs the same command again (and the collector finalises the abandoned file object some time later)
+                ops.append({k: v for k, v in op.items() if k != "intr"})
+                if rng.random() < 0.5:
+                    ops.append({"op": "gc"})
+        elif r < 0.64:
+            ops.append({"op": "gc"})
         elif r < 0.74:
             ops.append({"op": "reimport", "name": rng.randrange(len(NAMES)), "where": rng.choice(["session", "partner"])})
         elif r < 0.88:
@@ -244,6 +254,9 @@ def execute(plan, ctx):
             if op["op"] == "ident":
                 ident.user, ident.host, ident.plat = op["user"], op["host"], op["plat"]
                 continue
+            if op["op"] == "gc":
+                ctx.gc_point()
+                continue
             if op["op"] == "reimport":
                 paths = sorted(p_ for p_, m_ in files.items() if m_.get("durable"))
                 if not paths:
@@ -255,6 +268,12 @@ def execute(plan, ctx):
                 verify(ctx, pe, partner, m, op["where"], "reimport")
                 continue
             do_export(ctx, pe, pd, op, plan, structs, d, clock, faults, files, sql_model, partner)
+        # final audit: whatever an abandoned file object of an interrupted / failed export still holds is flushed now at the
+        # latest; every acknowledged archive must still be what was acknowledged
+        ctx.step = len(plan["ops"])
+        ctx.gc_point("final")
+        for p_ in sorted(p__ for p__, m_ in files.items() if m_.get("durable") and m_["transport"] != "sql"):
+            verify(ctx, pe, partner, files[p_], "session", "final_audit")
     ctx.sim_time = clock.t - t_start
 
 
@@ -436,16 +455,21 @@ def do_export(ctx, pe, pd, op, plan, structs, d, clock, faults, files, sql_model
                 gzf = op["gz"] if tr in ("file", "dict") else True
                 m = {"transport": tr, "path": path, "gz": gzf, "expect": exp, "durable": False, "frame": False, "objs": None, "comp": comp, "disc": disc}
                 if os.path.exists(path):
+                    # an export interrupted before it opened the file leaves the previous archive of that name untouched
+                    # (decided with the loader of the PREVIOUS export: the one of the interrupted export may reject its kind)
+                    old_ok = False
+                    if prev is not None and prev.get("durable") and not prev.get("frame") and prev["path"] == path:
+                        try:
+                            old_ok = gen.diff(without_known_corr_tag(prev["expect"]), gen.canon(load(pe, prev))) is None
+                        except Exception:
+                            old_ok = False
+                    if old_ok:
+                        ctx.probe("interrupted_before_open_old_archive_intact")
+                        ctx.sig(comp, disc, "interrupt_before_open")
+                        return          # the model keeps the previous entry
                     try:
                         got = gen.canon(load(pe, m))
                         dd = gen.diff(exp, got)
-                        # an export interrupted before it opened the file leaves the previous archive of that name untouched
-                        old_ok = False
-                        if prev is not None and prev.get("durable") and not prev.get("frame") and prev["path"] == path:
-                            try:
-                                old_ok = gen.diff(without_known_corr_tag(prev["expect"]), gen.canon(load(pe, prev))) is None
-                            except Exception:
-                                old_ok = False
                         if dd and "Corr tag 'None' vs None" not in dd and not old_ok:
                             ctx.violation("c11.torn_archive_loaded", comp, "interrupt", "archive left by an interrupted export imported as something else: %s" % dd)
                         elif old_ok:
@@ -630,7 +654,7 @@ def verify(ctx, pe, partner, m, where, hist):
     ctx.probe("roundtrip_ok")
     if back is not None and m.get("objs") is not None and not m.get("frame"):
         analysis_equal(ctx, comp, disc, m["objs"], back)
-        if exact and hist != "reimport":        # later operations may re-analyse the in-memory objects; the file keeps the analysis of export time
+        if exact and hist not in ("reimport", "final_audit"):        # later operations may re-analyse the in-memory objects; the file keeps the analysis of export time
             for x, y in zip(gen.all_obs(m["objs"]), gen.all_obs(back)):
                 for k in objs.E_KEYS + ["_dvalue", "ddvalue"]:
                     if hasattr(x, k) != hasattr(y, k) or (hasattr(x, k) and kernel_digest(getattr(x, k)) != kernel_digest(getattr(y, k))):
